@@ -84,7 +84,8 @@ RECURSIVE TT(_, _, _)
 TT(T, N, sk) ==
    CASE sk[1] = 0 -> T[sk[2]]
      [] sk[1] = 1 -> N \ TT(T, N, sk[2])
-     [] sk[1] = 2 -> {k \in N : \A i \in Kids(sk) : k \in TT(T, N, sk[i])}
+     [] sk[1] = 2 -> LET ts == TLCEval([i \in Kids(sk) |-> TT(T, N, sk[i])])
+                     IN {k \in N : \A i \in Kids(sk) : k \in ts[i]}
      [] sk[1] = 3 -> UNION {TT(T, N, sk[i]) : i \in Kids(sk)}
      [] sk[1] = 4 -> (N \ TT(T, N, sk[2])) \cup TT(T, N, sk[3])
      [] sk[1] = 5 -> LET x == TT(T, N, sk[2])
